@@ -13,7 +13,7 @@ the `facet` argument, which selects the oracle:
   refuse  (C19)  a refused call (out-of-range index, size mismatch, attached donor) leaves text, token identities
                  and tree exactly as before
 """
-from symx.env import NoTracing, realize, check, Fail, NATIVE, pick, R
+from symx.env import NoTracing, realize, check, Fail, NATIVE, pick, R, set_load_factor
 from symx import docenv
 from symx.docenv import parse, text_of, Snapshot, embed
 from autobean_refactor import models
@@ -241,6 +241,7 @@ def make_rep(scaf_name, n, op, facet, step=None, attached=False, twin=False, pre
         assert 0 <= d0 < nd and 0 <= d1 < nd and 0 <= d2 < nd
         assert (0 <= bad < max(k, 1)) if attached else bad == -1
         with NoTracing():
+            set_load_factor(3 if n >= 2 else 1000)   # n >= 2: the ~60-token document spans ~20 store blocks, edits cross block boundaries
             f = docenv.PARSER.parse(text, M.File)
             parent = sc.get_parent(f)
             raw = getattr(parent, sc.raw_attr)
@@ -458,7 +459,8 @@ ENCODES = ['autobean_refactor/models/internal/properties.py: RepeatedNodeWrapper
     'autobean_refactor/models/internal/value_properties.py: _RepeatedValueWrapperUpdateHandler.handle/handle_splice, RepeatedValueWrapper.__iter__/__len__',
     'autobean_refactor/models/internal/indexes.py: range_from_index, slice_from_range',
     'autobean_refactor/models/base.py: RawModel.detach, RawTreeModel.reattach', 'autobean_refactor/token_store.py: splice/insert/remove']
-STUBS = ['scaffold documents and donor nodes are built by the real parser/constructors untraced (concrete); the operation under test runs traced '
+STUBS = ['TokenStore load factor set to 3 for scaffolds with >= 2 items (module globals, read at call time): documents span many blocks',
+         'scaffold documents and donor nodes are built by the real parser/constructors untraced (concrete); the operation under test runs traced '
          'with symbolic index, bounds, donor count and donor kinds',
          'C06 re-parse of the printed text runs untraced on the realised text of each path']
 OUTSIDE = ['lists longer than 4 items; indexes beyond n+3 / below -n-3 (CPython clamps them like the box edge); more than 3 donors; '
